@@ -42,6 +42,7 @@ def tree_key():
     global _KEY
     if _KEY is None:
         h = hashlib.sha256()
+        h.update(os.path.abspath(REPO).encode())   # harness workspaces path-depend on REPO: never share across locations
         _hash_tree(h, REPO)
         if os.path.exists(DRIVER):
             with open(DRIVER, "rb") as f:
